@@ -270,6 +270,15 @@ def r3_tests_after_block(ctx, F):
                         if idx[1:].isdigit() and int(idx[1:]) < len(ups) and \
                                 'Option<std::num::NonZero<usize>>' in ups[int(idx[1:])]['ty']:
                             none_edges += sw.edges_not('Some')
+            if not none_edges:
+                # the Option may be captured indirectly (inside a helper closure that the worker captured): any
+                # Some/None test whose Some edge leads to the comparison plays that role
+                for sw in w.switches:
+                    labs = [l for (l, t) in sw.edges if isinstance(l, str)]
+                    if sw.kind == 'variant' and 'Some' in labs:
+                        se = sw.edges_for('Some')
+                        if se and any(w.edges_dominate(se, tb) for tb in tgt_blocks):
+                            none_edges += sw.edges_not('Some')
             r = w.reach([cc.target], cut_blocks=tgt_blocks, cut_edges=none_edges)
             ctx.check(bool(tgt_blocks) and cc.bb not in r, rule, 'target-after-every-block', w,
                       good='target_state_count is compared after every block (when set)',
@@ -415,7 +424,25 @@ def r7_seed(ctx, F):
             elif pv == V('arg', 2):
                 why = 'captures the seed parameter'
             else:
+                # the workers may be spawned from inside a closure (`(0..n).map(|t| ..spawn..)`): follow the
+                # captured value out to spawn(); in between it may only be changed after the thread was started
+                from common import capture_origin, stores_to_field
+                pb2, pv2 = capture_origin(F, par, pv, through=())
                 ok = False
+                if pv.kind == 'local':
+                    ds0 = [d for d in par.defs.get(pv.key, []) if d[1] != 'call' and not d[2]['lhs']['p']]
+                    if len(ds0) == 1 and ds0[0][2]['rv']['k'] == 'use':
+                        pb2, pv2 = capture_origin(F, par, par.val(ds0[0][2]['rv']['op']), through=())
+                if pv2.kind == 'local' and pb2 is not par:
+                    ds2 = [d for d in pb2.defs.get(pv2.key, []) if d[1] != 'call' and not d[2]['lhs']['p']]
+                    if len(ds2) == 1 and ds2[0][2]['rv']['k'] == 'use':
+                        pv2 = noref(pb2.val(ds2[0][2]['rv']['op']))
+                if pv2 == V('arg', 2) and pb2.path == s.path:
+                    spawn_calls = [c for c in par.calls_to('Builder::spawn', 'thread::spawn')]
+                    late_stores = [i for (i, si, st_) in par.assigns(lambda st_: st_['lhs']['p'] == ['deref'])
+                                   if noref(par.local_val(st_['lhs']['l'])).kind == 'arg']
+                    ok = bool(spawn_calls) and all(par.dominates(spawn_calls[0].bb, i) for i in late_stores)
+                    why = 'the per-thread seed starts as the seed parameter and is only advanced after the thread was spawned'
     ctx.check(ok, rule, 'first-trace-uses-user-seed', w,
               good='worker 0\'s first check_trace_from_initial gets the caller\'s seed (%s)' % why,
               bad='SIM: the seed handed to the first trace of the first worker is not the caller\'s seed '
